@@ -126,6 +126,17 @@ def run(ctx):
         if len(ss) >= 2:
             cases.append((ss, 'same', 'out', [("S", t) for t in ss], r))
     ctx.notes["same_base_name_cases"] = sum(1 for c in cases if c[3] and c[3][0][0] == "S")
+    # the same path listed twice (and three times), directories with a trailing slash / nested, names with
+    # leading / trailing spaces
+    i2 = [i for i, ss in enumerate(sets[:12]) if raw[i].startswith("OK ")]
+    for i in i2[:5]:
+        ss = sets[i]
+        rr = genlib.infer051(ctx, [ss + [ss[0]], ss + [ss[0], ss[0]]])[1]
+        cases.append((ss + [ss[0]], 'twice', 'out', [("T", t) for t in ss] + [("R", 0)], rr[0]))
+        cases.append((ss + [ss[0], ss[0]], 'twice', 'out', [("T", t) for t in ss] + [("R", 0), ("R", 0)], rr[1]))
+    for nm, dd in ((' lead', 'out'), ('trail ', 'out'), ('collection', 'out/'), ('collection', 'a/b'), ('x', 'out//')):
+        for i in i2[:2]:
+            cases.append((sets[i], nm, dd, [("T", t) for t in sets[i]], raw[i]))
     for name, d in (('collection', 'out'), ('a.b', '-')):
         cases.append((None, name, d, [("M", None)], "ERR"))
         cases.append((None, name, d, [("D", None)], "ERR"))
@@ -135,7 +146,7 @@ def run(ctx):
             cases.append((bad, name, d, [("T", t) for t in bad], r))
     ilines, mlines = [], []
     for ss, name, d, specs, infres in cases:
-        sp = "\t".join(k + (hexs(t) if k in "TS" else "") for k, t in specs)
+        sp = "\t".join(k + (hexs(t) if k in "TS" else (str(t) if k == "R" else "")) for k, t in specs)
         ilines.append("compile\t%s\t%s%s" % (hexs(name), '-' if d == '-' else hexs(d), ("\t" + sp) if sp else ""))
         if infres.startswith("OK "):
             ia = "S" + infres[3:]
@@ -143,8 +154,13 @@ def run(ctx):
             ia = "P"
         else:
             ia = "E"
-        srcs = "\t".join("%s:%s" % (hexs("$R/src/d%d/sample.json" % j if k == "S" else "$R/src/s%d.json" % j), "R" if k in "TS" else "X")
-                         for j, (k, _) in enumerate(specs))
+        def spath(j):
+            k, t = specs[j]
+            return spath(t) if k == "R" else ("$R/src/d%d/sample.json" % j if k == "S" else "$R/src/s%d.json" % j)
+        def sread(j):
+            k, t = specs[j]
+            return sread(t) if k == "R" else ("R" if k in "TS" else "X")
+        srcs = "\t".join("%s:%s" % (hexs(spath(j)), sread(j)) for j in range(len(specs)))
         mlines.append("gen_compile\t%s\t%s\t%s\t%s\t1%s" % (hexs(name), '-' if d == '-' else hexs("$R/" + d),
                                                            hexs("$R/cwd"), ia, ("\t" + srcs) if srcs else ""))
     ri = ctx.impl(ilines)
